@@ -99,6 +99,9 @@ static var NodeA_Alloc(void) {
     var obj = arena + c * CELL + sizeof(struct Header);
     if (want_res < 0 or (((uintptr_t)obj) >> 3) % want_mod is (uint64_t)want_res) { pick = c; break; }
   }
+  if (pick < 0) {     /* no free cell in the requested residue class: any free cell will do (the residue is only a bias) */
+    for (int64_t c = 0; c < NCELL; c++) { if (not cellused[c]) { pick = c; break; } }
+  }
   if (pick < 0) { harness_bug("arena exhausted"); }
   cellused[pick] = 1;
   memset(arena + pick * CELL, 0, CELL);
